@@ -52,6 +52,7 @@ inductive Label where
   | finish (f : Fid)                      -- `f E done`
   | setP (f : Fid) (v : Nat)              -- `p = &slot[v]`
   | getP (f : Fid) (r : Option Nat)       -- `p.Get()`
+  | setQ (f : Fid) (v : Nat)              -- `q = &slot[v]`
   | copyQP (f : Fid)                      -- `q = p`
   | getQ (f : Fid) (r : Option Nat)
   | getL (f : Fid) (r : Option Nat)       -- `l.Get()` (a pointer of another type)
@@ -74,6 +75,8 @@ inductive Step : State → Label → State → Prop where
   | setP (s : State) (f : Fid) (v : Nat) (h : s.pc f = .idle) :
       Step s (.setP f v) { s with slot0 := upd s.slot0 f (some v) }
   | getP (s : State) (f : Fid) (h : s.pc f = .idle) : Step s (.getP f (read0 s f)) s
+  | setQ (s : State) (f : Fid) (v : Nat) (h : s.pc f = .idle) :
+      Step s (.setQ f v) { s with slot1 := upd s.slot1 f (some v), lastQ := upd s.lastQ f (some (some v)) }
   | copyQP (s : State) (f : Fid) (h : s.pc f = .idle) : Step s (.copyQP f) (doCopy s f)
   | getQ (s : State) (f : Fid) (h : s.pc f = .idle) : Step s (.getQ f (read1 s f)) s
   /-- D13: index 0 again -/
@@ -94,6 +97,9 @@ def next (s : State) : Label → Option State
   | .finish f => if s.pc f = .idle then some { s with pc := upd s.pc f .done, fin := upd s.fin f true } else none
   | .setP f v => if s.pc f = .idle then some { s with slot0 := upd s.slot0 f (some v) } else none
   | .getP f r => if s.pc f = .idle ∧ r = read0 s f then some s else none
+  | .setQ f v =>
+      if s.pc f = .idle then some { s with slot1 := upd s.slot1 f (some v), lastQ := upd s.lastQ f (some (some v)) }
+      else none
   | .copyQP f => if s.pc f = .idle then some (doCopy s f) else none
   | .getQ f r => if s.pc f = .idle ∧ r = read1 s f then some s else none
   | .getL f r => if s.pc f = .idle ∧ r = read0 s f then some s else none
@@ -129,6 +135,10 @@ theorem next_sound {s : State} {l : Label} {s' : State} (h : next s l = some s')
   | getP f r =>
       simp only [next] at h; split at h
       · rename_i hg; cases h; rw [hg.2]; exact .getP s f hg.1
+      · cases h
+  | setQ f v =>
+      simp only [next] at h; split at h
+      · rename_i hg; cases h; exact .setQ s f v hg
       · cases h
   | copyQP f =>
       simp only [next] at h; split at h
